@@ -589,7 +589,7 @@ func (e *Engine) havocHeap(st *State, why string) {
 	st.epoch = ep
 	st.pending = nil
 	for _, key := range sortedKeys(old) {
-		if strings.HasPrefix(key, "G:") && e.P.immutableGlobal(key) {
+		if (strings.HasPrefix(key, "G:") && e.P.immutableGlobal(key)) || isGhostKey(key) {
 			st.heap[key] = old[key]
 			continue
 		}
@@ -1048,6 +1048,28 @@ func (e *Engine) gotoBlock(st *State, b *ssa.BasicBlock) []*State {
 		st.owned = nil // owned objects may be modified by the loop body itself
 		e.havocEffect(st, li.eff, "loop")
 		st.owned = ownedSave
+	}
+	if len(e.P.specs.Ghosts) > 0 {
+		var callees []*ssa.Function
+		unknown := false
+		for b := range li.body {
+			for _, ins := range b.Instrs {
+				if call, ok := ins.(ssa.CallInstruction); ok {
+					c := call.Common()
+					if _, isB := c.Value.(*ssa.Builtin); isB {
+						continue
+					}
+					if c.IsInvoke() {
+						callees = append(callees, e.P.methodsImplementing(c.Value.Type(), c.Method)...)
+					} else if callee := c.StaticCallee(); callee != nil {
+						callees = append(callees, callee)
+					} else {
+						unknown = true
+					}
+				}
+			}
+		}
+		e.havocGhosts(st, callees, unknown)
 	}
 	if li.rangeIdx != nil {
 		if id, ok := fr.cells[li.rangeIdx]; ok {
